@@ -143,6 +143,47 @@ def conformance(rep, wd, trace_path, label, chunk=2500):
         rep.notes.append("DIVERGENCE module=Core (Verify/SyncResult) trace=%d step=%d op=%s" % (d["t"], d["i"], d["op"]))
 
 
+def policy_conformance(rep, wd, trace_path, label, chunk=3000):
+    """Binding of Policy.tla: its own SyncOutcome, instantiated on the WAL / sync-state observed before each real DB.Sync,
+    must predict the frames left in the WAL and the number of level-0 files created (Trace_Policy.tla)."""
+    per, order = {}, []
+    for line in open(trace_path):
+        t = json.loads(line)["t"]
+        if t not in per:
+            per[t] = []
+            order.append(t)
+        per[t].append(line)
+    batches, cur = [], []
+    for t in order:
+        cur += per[t]
+        if len(cur) >= chunk:
+            batches.append(cur)
+            cur = []
+    if cur:
+        batches.append(cur)
+    kinds, div, n = {}, [], 0
+    for part in batches:
+        with open(os.path.join(wd, "core_trace.ndjson"), "w") as fh:
+            fh.writelines(part)
+        r = vlib.run_tlc("Trace_Policy", "Trace_Policy.cfg", wd, workers=1, timeout=1800)
+        vlib.tlc_expect_ok(r, "Trace_Policy")
+        rep.add_tlc("Trace_Policy(%s)" % label, r, "Policy.tla's SyncOutcome vs what the real DB.Sync did")
+        for m in vlib.re.finditer(r'<<"BRANCH", "([a-z+-]+)", (\d+), (\d+), (\d+)>>', r.out):
+            kinds[m.group(1)] = kinds.get(m.group(1), 0) + 1
+            n += 1
+        for m in vlib.re.finditer(r'<<"DIVERGE", (\d+), (\d+), (\d+), (-?\d+), (\d+)>>', r.out):
+            e = json.loads(part[int(m.group(1)) - 1])
+            div.append({"t": e["t"], "i": e["i"], "cfg": [e["cfg"]["minPg"], e["cfg"]["truncPg"], e["cfg"]["intervalMs"]],
+                        "pre": [e["pre"]["valid"], e["pre"]["synced"], e["pre"]["since"]],
+                        "predicted": [int(m.group(4)), int(m.group(5))],
+                        "observed": [e["wal"]["valid"], sum(1 for f in e["newl0"] if not f["fetched"])]})
+    rep.cov["policy_conformance"] = {"syncs_predicted": n, "branches": kinds, "divergences": len(div), "first": div[:3]}
+    for d in div[:3]:
+        rep.notes.append("DIVERGENCE module=Policy (SyncOutcome) trace=%d step=%d cfg=%s pre=%s predicted=%s observed=%s"
+                         % (d["t"], d["i"], d["cfg"], d["pre"], d["predicted"], d["observed"]))
+    return div
+
+
 def replica_conformance(rep, wd, trace_path, label, chunk=3000):
     """Binding of Replica.tla: its own CompactOut / SnapRetentionOut / L0RetentionResult, instantiated on the replica listing
     observed before each real compaction / retention call, must predict what the real code did (Trace_Replica.tla)."""
